@@ -46,6 +46,72 @@ func callRank(p *Pkg, fn *ast.FuncDecl, sel string, sels ...string) *big.Int {
 	return big.NewInt(int64(r))
 }
 
+// condMentions reports whether fn has an if statement whose condition contains a
+// call of a method named sel and whose body contains a call of a method named body.
+func condMentions(fn *ast.FuncDecl, sel string, body string) bool {
+	calls := func(n ast.Node, name string) bool {
+		found := false
+		ast.Inspect(n, func(x ast.Node) bool {
+			if ce, ok := x.(*ast.CallExpr); ok {
+				switch f := ce.Fun.(type) {
+				case *ast.SelectorExpr:
+					if f.Sel.Name == name {
+						found = true
+					}
+				case *ast.Ident:
+					if f.Name == name {
+						found = true
+					}
+				}
+			}
+			return true
+		})
+		return found
+	}
+	res := false
+	ast.Inspect(fn.Body, func(n ast.Node) bool {
+		if is, ok := n.(*ast.IfStmt); ok {
+			if calls(is.Cond, sel) && calls(is.Body, body) {
+				res = true
+			}
+		}
+		return true
+	})
+	return res
+}
+
+// condIsBareCall reports whether fn has an if statement whose body calls body and
+// whose condition is exactly one method call named sel (no && / || / !).
+func condIsBareCall(fn *ast.FuncDecl, sel string, body string) bool {
+	res := false
+	ast.Inspect(fn.Body, func(n ast.Node) bool {
+		is, ok := n.(*ast.IfStmt)
+		if !ok {
+			return true
+		}
+		hasBody := false
+		ast.Inspect(is.Body, func(x ast.Node) bool {
+			if ce, ok := x.(*ast.CallExpr); ok {
+				if f, ok := ce.Fun.(*ast.SelectorExpr); ok && f.Sel.Name == body {
+					hasBody = true
+				}
+			}
+			return true
+		})
+		if ce, ok := is.Cond.(*ast.CallExpr); ok && hasBody {
+			if f, ok := ce.Fun.(*ast.SelectorExpr); ok && f.Sel.Name == sel {
+				res = true
+			}
+		}
+		return true
+	})
+	return res
+}
+
+func c16BoolFact(name string, f func() bool) Fact {
+	return Fact{Name: name, Gen: func() string { return defBool(name, f()) }}
+}
+
 func init() {
 	root := func() *Pkg { return loadPkg(".") }
 	srv := func() *Pkg { return loadPkg("internal/server") }
@@ -61,6 +127,25 @@ func init() {
 		// node.recover (on-disk state machines): sm.Sync ; snapshotter.Shrink
 		NFact("recover_pos_sync", func() *big.Int { p := root(); return callRank(p, p.Func("node", "recover"), "Sync", "Sync", "Shrink") }),
 		NFact("recover_pos_shrink", func() *big.Int { p := root(); return callRank(p, p.Func("node", "recover"), "Shrink", "Sync", "Shrink") }),
+		// transport.Chunk.save: a received file is fsynced at the last chunk of EACH file
+		c16BoolFact("chunk_save_syncs_each_file", func() bool {
+			p := loadPkg("internal/transport")
+			return condMentions(p.Func("Chunk", "save"), "IsLastFileChunk", "sync")
+		}),
+		// rsm.StateMachine.Save: every snapshot of a concurrent (incl. on-disk) state machine
+		// goes through concurrentSave, which calls sync() before doSave
+		c16BoolFact("save_concurrent_cond_plain", func() bool {
+			p := loadPkg("internal/rsm")
+			return condIsBareCall(p.Func("StateMachine", "Save"), "Concurrent", "concurrentSave")
+		}),
+		NFact("concurrent_save_pos_sync", func() *big.Int {
+			p := loadPkg("internal/rsm")
+			return callRank(p, p.Func("StateMachine", "concurrentSave"), "sync", "sync", "doSave")
+		}),
+		NFact("concurrent_save_pos_dosave", func() *big.Int {
+			p := loadPkg("internal/rsm")
+			return callRank(p, p.Func("StateMachine", "concurrentSave"), "doSave", "sync", "doSave")
+		}),
 		// SSEnv.FinalizeSnapshot: createFlagFile ; finalDirExists ; renameToFinalDir
 		NFact("finalize_pos_flag", func() *big.Int { p := srv(); return callRank(p, p.Func("SSEnv", "FinalizeSnapshot"), "createFlagFile", "createFlagFile", "finalDirExists", "renameToFinalDir") }),
 		NFact("finalize_pos_check", func() *big.Int { p := srv(); return callRank(p, p.Func("SSEnv", "FinalizeSnapshot"), "finalDirExists", "createFlagFile", "finalDirExists", "renameToFinalDir") }),
